@@ -5,6 +5,7 @@
 import NPModel.Refine.Fields
 import NPModel.Refine.FieldValues
 import NPModel.Refine.Samples
+import NPModel.Refine.FieldRows
 namespace NP.C06
 open NP
 variable {α : Type}
@@ -59,5 +60,34 @@ theorem upsert_reads_back (kids : List (PField α)) (k : PField α) :
     row, for a new field -/
 example : (NArr.setFlatField Samples.c1 "z" "int64" (.array [10, 20, 30, 40]) false).toBool = true := by
   decide
+
+/-- **`set_list_field` row by row**: whenever the call succeeds — for every column in any layout
+    (no storage invariant assumed) and every supplied list array (any offsets, buffers, nulls) — the
+    result has the same rows except that every present row's table has field `f` set to that row's
+    supplied list (replaced in its place, or appended as the last field); missing rows stay
+    missing, the number of rows is unchanged, the dtype gets `f : ty` in the same position. -/
+theorem set_list_field_row_by_row {c c' : PCol α} {f ty : String} {value : PList α} {keep : Bool}
+    (h : NArr.setListField c f ty value keep = .ok c') (hvl : value.rows.length = value.len) :
+    c'.rows = List.zipWith (fun r l => r.map fun t => Spec.Table.upsert t f (l.getD [])) c.rows value.rows ∧
+    c'.ty = Spec.tyUpsert c.ty f ty :=
+  setListField_rows h hvl
+
+/-- **`set_flat_field` row by row** (`with_flat_field`, `.nest[f] = values`, `frame['n.f'] = values`)
+    on cleanly stored columns of any chunking: the flat values are cut by the rows' record counts
+    and row `i` gets the `i`-th piece; a successful call had exactly `flat_length` values. -/
+theorem set_flat_field_row_by_row {c c' : PCol α} {f ty : String} {xs : List α} {keep : Bool} (hc : c.Clean)
+    (h : NArr.setFlatField c f ty (.array xs) keep = .ok c') :
+    c'.rows = List.zipWith (fun r l => r.map fun t => Spec.Table.upsert t f l) c.rows
+                (Spec.splitBy (c.rows.map Row.len) xs) ∧
+    c'.ty = Spec.tyUpsert c.ty f ty ∧ xs.length = Spec.flatLength c.rows :=
+  setFlatField_rows hc h
+
+/-- **`fill_field_lists` row by row** (`with_filled_field`, a base-aligned Series assigned to
+    `frame['n.f']`): row `i` gets its one value repeated once per record of the row. -/
+theorem fill_field_lists_row_by_row {c c' : PCol α} {f ty : String} {vs : List α} {keep : Bool} (hc : c.Clean)
+    (h : NArr.fillFieldLists c f ty vs keep = .ok c') :
+    c'.rows = List.zipWith (fun r v => r.map fun t => Spec.Table.upsert t f (List.replicate (Row.len r) v)) c.rows vs ∧
+    c'.ty = Spec.tyUpsert c.ty f ty :=
+  fillFieldLists_rows hc h
 
 end NP.C06
